@@ -35,17 +35,44 @@ enum Inst {
     AsyncStd(signal_hook_async_std::Signals),
 }
 
-/// run `f` on a helper thread; `None` if it does not finish within 400 ms
+/// how patient the probe is with the other threads (reactor, helper): the waits below are multiplied by it.
+/// 1 by default; the check re-runs a block that failed with more patience before it believes the failure.
+fn patience() -> u64 {
+    std::env::var("SIGHOOK_PATIENCE").ok().and_then(|v| v.parse().ok()).unwrap_or(1).max(1)
+}
+
+/// run `f` on a helper thread; `None` if it does not finish within 2 s (times patience)
 fn with_timeout<T: Send + 'static, F: FnOnce() -> T + Send + 'static>(f: F) -> Option<T> {
     let (tx, rx) = std::sync::mpsc::channel();
     std::thread::spawn(move || {
         let _ = tx.send(f());
     });
-    rx.recv_timeout(std::time::Duration::from_millis(2000)).ok()
+    rx.recv_timeout(std::time::Duration::from_millis(2000 * patience())).ok()
 }
 
 struct SendPtr<T>(*mut T);
 unsafe impl<T> Send for SendPtr<T> {}
+
+/// the list of signals handed to a constructor, consumed lazily: when the constructor asks for the second element
+/// the first signal is already registered - it is raised right there (a signal during start-up), and the
+/// constructor is held up for a moment so that a reactor thread can notice the readable self-pipe
+struct Startup {
+    sigs: Vec<i32>,
+    pos: usize,
+    raise: bool,
+}
+
+impl Iterator for Startup {
+    type Item = i32;
+    fn next(&mut self) -> Option<i32> {
+        if self.pos == 1 && self.raise {
+            unsafe { libc::raise(self.sigs[0]) };
+            std::thread::sleep(std::time::Duration::from_millis(200));
+        }
+        self.pos += 1;
+        self.sigs.get(self.pos - 1).copied()
+    }
+}
 
 fn run_child(ops: &[String]) {
     silence_panics();
@@ -57,16 +84,17 @@ fn run_child(ops: &[String]) {
     for op in ops {
         let w: Vec<&str> = op.split_whitespace().collect();
         match w.as_slice() {
-            ["new", kind, sigs @ ..] => {
+            ["new", kind, sigs @ ..] | ["newstart", kind, sigs @ ..] => {
                 let sigs: Vec<i32> = sigs.iter().map(|x| x.parse().unwrap()).collect();
+                let list = || Startup { sigs: sigs.clone(), pos: 0, raise: w[0] == "newstart" };
                 match *kind {
                     "signals" => {
-                        let s = signal_hook::iterator::Signals::new(&sigs).unwrap();
+                        let s = signal_hook::iterator::Signals::new(list()).unwrap();
                         handle = Some(s.handle());
                         inst = Inst::Signals(s);
                     }
                     "mio" => {
-                        let mut s = signal_hook_mio::v0_7::Signals::new(&sigs).unwrap();
+                        let mut s = signal_hook_mio::v0_7::Signals::new(list()).unwrap();
                         let poll = mio::Poll::new().unwrap();
                         poll.registry().register(&mut s, mio::Token(0), mio::Interest::READABLE).unwrap();
                         inst = Inst::Mio(s, poll);
@@ -75,13 +103,13 @@ fn run_child(ops: &[String]) {
                         let rt = tokio::runtime::Builder::new_multi_thread().worker_threads(1).enable_all().build().unwrap();
                         let s = {
                             let _g = rt.enter();
-                            signal_hook_tokio::Signals::new(&sigs).unwrap()
+                            signal_hook_tokio::Signals::new(list()).unwrap()
                         };
                         handle = Some(s.handle());
                         inst = Inst::Tokio(s, rt);
                     }
                     _ => {
-                        let s = signal_hook_async_std::Signals::new(&sigs).unwrap();
+                        let s = signal_hook_async_std::Signals::new(list()).unwrap();
                         handle = Some(s.handle());
                         inst = Inst::AsyncStd(s);
                     }
@@ -130,7 +158,7 @@ fn run_child(ops: &[String]) {
             ["mpoll"] => {
                 if let Inst::Mio(s, poll) = &mut inst {
                     let mut events = mio::Events::with_capacity(8);
-                    let _ = poll.poll(&mut events, Some(std::time::Duration::from_millis(60)));
+                    let _ = poll.poll(&mut events, Some(std::time::Duration::from_millis(60 * patience())));
                     if events.iter().next().is_some() {
                         let v: Vec<i32> = s.pending().collect();
                         println!("ready {:?}", v);
@@ -161,7 +189,7 @@ fn run_child(ops: &[String]) {
                         break;
                     }
                     let mut seen = false;
-                    for _ in 0..120 {
+                    for _ in 0..(120 * patience()) {
                         if flag.0.load(Ordering::SeqCst) { seen = true; break; }
                         std::thread::sleep(std::time::Duration::from_millis(5));
                     }
@@ -178,7 +206,7 @@ fn run_child(ops: &[String]) {
             ["woken"] => {
                 // give the reactor thread time to see the readable descriptor and call the waker
                 let mut seen = false;
-                for _ in 0..120 {
+                for _ in 0..(120 * patience()) {
                     if flag.0.load(Ordering::SeqCst) { seen = true; break; }
                     std::thread::sleep(std::time::Duration::from_millis(5));
                 }
